@@ -293,6 +293,100 @@ pub fn c14(d: &Digest, s: usize, out: &mut Vec<Violation>) {
     }
 }
 
+/// C19/C16: a subscriber object shared by several stores.  Direct: told of every notifying action
+/// of every store it is registered with, whatever happens to the other stores.  Selector: its
+/// callbacks are the de-duplication of SOME interleaving of the per-store notification streams
+/// (on_notify calls on one object are serialised, their order across stores is not observable).
+pub fn shared_subscribers(d: &Digest, out: &mut Vec<Violation>) {
+    for (sub, cfg) in d.prog.subs.iter().enumerate() {
+        if !cfg.shared {
+            continue;
+        }
+        let regs: Vec<(usize, usize, usize)> = d.regs.iter().filter(|(_, x)| x.0 == sub).map(|(r, x)| (*r, x.1, x.2)).collect();
+        if regs.len() < 2 {
+            continue;
+        }
+        // preconditions: every registration precedes every dispatch, no unsubscribe before the
+        // store's clean stop, every store has a reference stream
+        let first_dispatch = d.ev.iter().position(|e| matches!(&e.k, K::Inv { op: OpK::Dispatch { .. }, .. })).unwrap_or(usize::MAX);
+        let mut streams: Vec<Vec<(u8, ActId)>> = vec![];
+        let mut ok = true;
+        for (reg, s, ci) in &regs {
+            let c = &d.calls[*ci];
+            let Some(xs) = d.stores[*s].clean_stop else { ok = false; break };
+            let xret = d.calls[xs].ret.unwrap();
+            if !(c.ok() && c.ret_or_max() < first_dispatch) || unsub_calls(d, *reg).iter().any(|u| u.inv < xret) {
+                ok = false;
+                break;
+            }
+            match ref_stream(d, *s) {
+                Some(r) => streams.push(r.iter().map(|y| (y.3, y.0)).collect()),
+                None => {
+                    ok = false;
+                    break;
+                }
+            }
+        }
+        if !ok || streams.len() != 2 {
+            continue;
+        }
+        match cfg.kind {
+            SubKind::Direct => {
+                let log = sub_log(d, sub);
+                for st in &streams {
+                    for (_, act) in st {
+                        let n = log.iter().filter(|x| x.0 == *act).count();
+                        if n != 1 {
+                            v(out, "C19", "shared-subscriber", format!("subscriber object {sub} shared by two stores was notified {n} times of action {act} (a reference subscriber of that store: once)"));
+                            return;
+                        }
+                    }
+                }
+            }
+            SubKind::Selector => {
+                let cbs: Vec<(u8, ActId)> = d
+                    .ev
+                    .iter()
+                    .filter_map(|e| match &e.k {
+                        K::SelCb { sub: sb, val, act } if *sb == sub => Some((*val, *act)),
+                        _ => None,
+                    })
+                    .collect();
+                let (a, b) = (&streams[0], &streams[1]);
+                // reachable states (i, j, k, last)
+                let mut seen = std::collections::BTreeSet::new();
+                let mut stack = vec![(0usize, 0usize, 0usize, None::<u8>)];
+                let mut accepted = false;
+                while let Some(stt) = stack.pop() {
+                    if !seen.insert(stt) {
+                        continue;
+                    }
+                    let (i, j, k, last) = stt;
+                    if i == a.len() && j == b.len() {
+                        if k == cbs.len() {
+                            accepted = true;
+                            break;
+                        }
+                        continue;
+                    }
+                    for (x, ni, nj) in [(a.get(i), i + 1, j), (b.get(j), i, j + 1)] {
+                        let Some(x) = x else { continue };
+                        if Some(x.0) == last {
+                            stack.push((ni, nj, k, last));
+                        } else if cbs.get(k) == Some(x) {
+                            stack.push((ni, nj, k + 1, Some(x.0)));
+                        }
+                    }
+                }
+                if !accepted {
+                    v(out, "C16", "shared-selector-not-dedup-of-any-interleaving", format!("selector {sub} shared by two stores delivered {:?}; no interleaving of the stores' notification streams {:?} and {:?} de-duplicates to that", cbs, a, b));
+                }
+            }
+            _ => {}
+        }
+    }
+}
+
 fn dedup<T: PartialEq + Clone, U: Clone>(v: &[(T, U)]) -> Vec<(T, U)> {
     let mut out: Vec<(T, U)> = vec![];
     for x in v {
